@@ -27,6 +27,7 @@ SLOT_WRITERS = {'cocls::future_common::future_common', 'cocls::future_common::su
 def run(ctx, db, tier):
     subscribe_protocol(ctx, db)
     link_current(ctx, db)
+    await_suspend_siblings(ctx, db)
     resolve_one_rmw(ctx, db)
     walk(ctx, db)
     result_used(ctx, db, 'C02.result-used', SUBSCRIBE_FAMILY)
@@ -136,6 +137,39 @@ def link_current(ctx, db, rid='C02.link-is-current-top'):
                 raise Broken('%s: no publishing compare_exchange on the chain found' % name)
             ctx.ob(rid, f, f['key'], bad is None, '%s: _next is the expected value at every publishing CAS' % name.split('::')[-1] + ('' if not bad else ' -- ' + bad[0]), desc=bad[0] if bad else None,
                    trace=fmt_trace(bad[1]) if bad else None)
+
+
+def await_suspend_siblings(ctx, db, rid='C02.await-suspend-siblings'):
+    """the two registration forms of the generic awaiter (coroutine handle, callback + context) differ only in what they store: both answer
+    exactly what the awaited object's subscribe() answered and never run the continuation themselves - on a refused registration the caller
+    continues (the coroutine is not suspended; the callback's owner carries on), a second continuation would run it twice"""
+    rid = ctx.rule(rid, 'SIBLINGS', 'co_awaiter::await_suspend(coroutine_handle) and co_awaiter::await_suspend(resume_fn, void*): on every path exactly one _owner.subscribe(this), whose answer is '
+                   'what the function returns; the handle / function is stored before it; the awaiter is not resumed by the function itself', floor=2)
+    T = htracer(db)
+    seen = set(); n = 0
+    for f in db.need('cocls::co_awaiter::await_suspend'):
+        kind = 'callback' if len(f['params']) == 2 else 'handle'
+        if (f['key'],) in seen:
+            continue
+        seen.add((f['key'],)); n += 1
+        trs = [t for t in T.traces(f) if live(t)]
+        ctx.paths(rid, len(trs))
+        bad = None
+        for tr in trs:
+            sub = [i for i, c in enumerate(tr) if c.k == 'call' and norm(c.get('callee') or '').endswith('::subscribe') and (c.get('recv') or '').endswith('_owner') and c.get('depth', 0) == 0]
+            res = [c for c in tr if c.k == 'call' and norm(c.get('callee')) in ('cocls::awaiter::resume',) and rooted(c.get('recv') or '', 'this')]
+            if len(sub) != 1:
+                bad = bad or ('the awaited object is asked to register %d times' % len(sub), tr); continue
+            o = origin_in_trace(tr, len(tr), ret_expr(tr))[0] or ''
+            rb = ret_bool(tr)
+            if res:
+                bad = bad or ('the awaiter is resumed by await_suspend itself: on a refused registration the caller continues anyway, the continuation runs twice', tr)
+            elif not (o.startswith('call(') and o.endswith('::subscribe)')) and not (rb is not None and any(tests(b, tr[sub[0]]) and bool(b.val) == rb for b in tr if b.k == 'branch')):
+                bad = bad or ('the function does not answer what subscribe() answered (%s): a refused registration is reported as a suspension nobody will end, or the reverse' % (ret_expr(tr) or ret_const(tr)), tr)
+        ctx.ob(rid, f, f['key'], bad is None and bool(trs), 'await_suspend (%s form) = store, then answer subscribe()' % kind + ('' if not bad else ' -- ' + bad[0]), desc=bad[0] if bad else None,
+               trace=fmt_trace(bad[1]) if bad else None)
+    if n < 2:
+        raise Broken('both forms of co_awaiter::await_suspend must be instantiated (found %d)' % n)
 
 
 def _is_equal_true(br):
